@@ -16,6 +16,7 @@ Import ListNotations.
 From Urwid Require Import PyBase Canvas CanvasGrid CanvasFacts CanvasAbs CanvasVert CanvasHoriz CanvasJoin CanvasSides
      CanvasProg CanvasProgH CanvasSim CanvasDelta CanvasDelta2 CanvasDelta3
      CanvasHeap CanvasHeapFrame CanvasHeapScope CanvasHeapRefine CanvasHeapSim.
+From Urwid Require Import Width WideExact CanvasBytes CanvasBytesRle CanvasBytesRefine.
 Open Scope Z_scope.
 
 (* ------------------------------------------------------------------------------------------
@@ -264,6 +265,89 @@ Qed.
 Print Assumptions canvas_composition_is_grid_on_the_heap.
 
 (* ------------------------------------------------------------------------------------------
+   Below the cells: text canvases as BYTES in a double-byte encoding (big5, gbk, uhc, euc-kr, ...).
+   Model/Canvas.v treats a text leaf as rows of screen cells; Model/CanvasBytes.v is the
+   TextCanvas of canvas.py itself - byte strings, run-length attribute / charset lists, the
+   constructor's padding, content() calling util.trim_text_attr_cs and util.rle_product.  The
+   width / trimming / run-length functions are the C11 model (Model/Width.v: calc_trim_text,
+   calc_text_pos, within_double_byte translated from str_util.py / util.py), used read-only; the
+   facts about them come from C11's theorems (within_double_byte_exact, calc_trim_text_double_byte).
+   A row is described by its tagged characters (character, attribute, charset): [tbytes] are its
+   bytes, [tattrs] / [tcss] the per-byte attributes / charsets, [cells_of] its cells.
+   ------------------------------------------------------------------------------------------ *)
+
+(* --- run-length lists read byte by byte: sub-segment = slice, product = canonical zip --- *)
+Theorem rle_subseg_is_the_slice_of_the_expansion :
+  forall (A : Type) (r : list (A * Z)) s e, nnr r -> 0 <= s ->
+  rexp (rle_subseg r s e) = takez (e - s) (dropz s (rexp r)).
+Proof. exact @rexp_subseg. Qed.
+Print Assumptions rle_subseg_is_the_slice_of_the_expansion.
+
+Theorem rle_product_is_the_canonical_zip :
+  forall x y : rle, posr x -> posr y ->
+  exists p, rle_product x y = Ok p /\ rexp p = combine (rexp x) (rexp y) /\ posr p /\
+            canon p.
+Proof. exact rle_product_spec. Qed.
+Print Assumptions rle_product_is_the_canonical_zip.
+
+(* --- "a double-width character cut by a trim ... is replaced by a space", on the bytes:
+   util.trim_text_attr_cs of a double-byte row returns the bytes / attribute runs / charset runs
+   of a row whose cells are exactly [trim_cells] of the cells (the cut character's half becomes
+   0x20 with the character's attribute and charset None); any text, any run-length split --- *)
+Theorem double_byte_row_trim_is_cell_trim :
+  forall wcw l (attr cs : rle) s e,
+  Forall tch_ok l -> nnr attr -> nnr cs -> rexp attr = tattrs l -> rexp cs = tcss l ->
+  0 <= s < e -> e <= zlen (tbytes l) ->
+  exists l' a' c',
+    trim_text_attr_cs wcw MWide (tbytes l) attr cs s e = Ok (tbytes l', a', c') /\
+    rexp a' = tattrs l' /\ rexp c' = tcss l' /\ nnr a' /\ nnr c' /\
+    (posr attr -> posr a') /\ (posr cs -> posr c') /\
+    Forall tch_ok l' /\ zlen (tbytes l') = e - s /\
+    cells_of l' = trim_cells (cells_of l) s e.
+Proof. exact trim_row_refines. Qed.
+Print Assumptions double_byte_row_trim_is_cell_trim.
+
+(* --- TextCanvas.content(trim_left, trim_top, cols, rows, attr) on bytes: it raises exactly when
+   the cell-level [text_content] raises, and otherwise every row of (attr, cs, bytes) segments,
+   decoded segment by segment as the harness decodes it ([dec_row]: no segment ends inside a
+   character), is the cell-level row --- *)
+Theorem double_byte_text_content_is_cell_content :
+  forall wcw R3 ls maxcol tl tt cols rows m,
+  Forall2 brow_rel R3 ls -> Forall (fun l => zlen (tbytes l) = maxcol) ls ->
+  match text_content (map cells_of ls) maxcol tl tt cols rows m with
+  | Err e => btext_content wcw MWide (btext_of R3 maxcol) tl tt cols rows m = Err e
+  | Ok rws => exists S, btext_content wcw MWide (btext_of R3 maxcol) tl tt cols rows m = Ok S /\
+                        map dec_row S = map Some rws
+  end.
+Proof. exact text_content_refines. Qed.
+Print Assumptions double_byte_text_content_is_cell_content.
+
+(* --- constructor and content together, hypotheses as a boolean check of the constructor's
+   arguments against the tagged characters ([binit_okb]: the bytes are those of the characters,
+   positive runs, runs may stop short of the text, well-formed double-byte characters):
+   TextCanvas(text, attr, cs, maxcol=mc) raises exactly when the cell-level [make_text] does, and
+   the canvas it builds answers every content() call - hence every cview of every composite
+   canvas - with the cells of the cell-level leaf. --- *)
+Theorem byte_text_canvas_is_cell_text_canvas :
+  forall wcw (ils : list ((list Z * rle * rle) * list tch)) (mc : oz) tl tt cols rows m,
+  forallb (fun p => binit_okb (fst p) (snd p)) ils = true ->
+  let I3 := map fst ils in
+  match make_text mc (map cells_of (map snd ils)) with
+  | Err e => btext_init wcw MWide (map (fun x => fst (fst x)) I3) (map (fun x => snd (fst x)) I3) (map snd I3) mc = Err e
+  | Ok k =>
+      exists b, btext_init wcw MWide (map (fun x => fst (fst x)) I3) (map (fun x => snd (fst x)) I3) (map snd I3) mc = Ok b /\
+      match canvas_content (Canvas 1 k) tl tt cols rows m with
+      | Err e => btext_content wcw MWide b tl tt cols rows m = Err e
+      | Ok rws => exists S, btext_content wcw MWide b tl tt cols rows m = Ok S /\ map dec_row S = map Some rws
+      end
+  end.
+Proof.
+  intros wcw ils mc tl tt cols rows m H. cbn zeta.
+  apply CanvasBytesRefine.byte_text_canvas_is_cell_text_canvas. now apply binit_okb_all.
+Qed.
+Print Assumptions byte_text_canvas_is_cell_text_canvas.
+
+(* ------------------------------------------------------------------------------------------
    Non-vacuity: concrete leaves with double-width characters, a program using every
    operation; the grid semantics is defined on it, the invariant holds, the model agrees.
    ------------------------------------------------------------------------------------------ *)
@@ -327,3 +411,22 @@ Example ex_aliasing :
    map (fun v => match v with HComp c => map snd (get_outer (hheap st) (hid c)) | HLeaf _ _ => [] end) (henv st))
   = (None, [2; 2; 3; 4], [[0; 1]; [0; 1]; [0; 1; 2]; [3; 0; 1; 4]]).
 Proof. vm_compute. reflexivity. Qed.
+
+(* a big5-style row: two-byte characters with trail bytes 0x7e and 0x40 around ASCII '~' and '@';
+   the constructor's arguments pass the boolean check, the window [1, 7) cuts the first and the
+   last character: both halves come back as spaces carrying the characters' attributes *)
+Definition ex_brow : list tch :=
+  [ (DDouble 166 126, 1, 0); (DSingle 126, 0, 0); (DDouble 164 64, 2, 0); (DSingle 64, 0, 2); (DDouble 165 126, 3, 0) ].
+Definition ex_bargs : list Z * rle * rle :=
+  ([166; 126; 126; 164; 64; 64; 165; 126], [(Some 1, 2); (None, 1); (Some 2, 2); (None, 1); (Some 3, 2)], [(None, 5); (Some 2, 1)]).
+Example ex_bytes :
+  binit_okb ex_bargs ex_brow = true /\
+  match btext_init wcwidth_tab MWide [fst (fst ex_bargs)] [snd (fst ex_bargs)] [snd ex_bargs] None with
+  | Ok b =>
+      btext_content wcwidth_tab MWide b 1 0 6 1 (Some [(2, 9)])
+      = Ok [[ (1, 0, [32]); (0, 0, [126]); (9, 0, [164; 64]); (0, 2, [64]); (3, 0, [32]) ]]
+      /\ dec_row [ (1, 0, [32]); (0, 0, [126]); (9, 0, [164; 64]); (0, 2, [64]); (3, 0, [32]) ]
+         = Some (map (cell_map_attr (Some [(2, 9)])) (trim_cells (cells_of ex_brow) 1 7))
+  | Err _ => False
+  end.
+Proof. vm_compute. split; [reflexivity|]. split; reflexivity. Qed.
